@@ -746,6 +746,15 @@ func fontSize(computer *ComputedStyle, _ pr.KnownProp, _value pr.CssProperty) pr
 	}
 }
 
+// parentFontWeight returns the font weight "bolder" and "lighter" are relative to:
+// the parent's computed value, or the initial value on the root element.
+func parentFontWeight(computer *ComputedStyle) int {
+	if computer.parentStyle == nil {
+		return pr.InitialValues.GetFontWeight().Int
+	}
+	return computer.parentStyle.GetFontWeight().Int
+}
+
 // Compute the “font-weight“ property.
 func fontWeight(computer *ComputedStyle, _ pr.KnownProp, _value pr.CssProperty) pr.CssProperty {
 	value := _value.(pr.IntString)
@@ -756,11 +765,9 @@ func fontWeight(computer *ComputedStyle, _ pr.KnownProp, _value pr.CssProperty) 
 	case "bold":
 		out = 700
 	case "bolder":
-		parentValue := computer.parentStyle.GetFontWeight().Int
-		out = fontWeightRelative.bolder[parentValue]
+		out = fontWeightRelative.bolder[parentFontWeight(computer)]
 	case "lighter":
-		parentValue := computer.parentStyle.GetFontWeight().Int
-		out = fontWeightRelative.lighter[parentValue]
+		out = fontWeightRelative.lighter[parentFontWeight(computer)]
 	default:
 		out = value.Int
 	}
